@@ -196,6 +196,7 @@ var seedExpectations = []seedExpect{
 	{"dce-no-repropagation", "C13", "unmark.propagatedagain", "dce.Run:markLiveLocalStoreValues"},
 	{"hlsl-missing-binding-silent", "C17", "bindmap.missreported", "Writer.getBindTarget:FakeMissingBindings"},
 	{"swizzle-pointer-param", "C08", "forref.valueuse", "lowerMember:ExprSwizzle.Vector"},
+	{"splat-matrix-operand", "C08", "splat.scalaroperand", "splatScalarToMatchPointer:Splat(value)"},
 	{"glsl-all-entry-points", "C17", "epselect.agree", "Writer.scanTextureSamplerPairs:filter"},
 	{"unknown-name-default", "C17", "name.silentdefault", "Lowerer.addressSpace"},
 	{"mem2reg-revoke-in-walk", "C13", "commit.revoke", "walkBlock"},
